@@ -616,3 +616,178 @@ def corpus_props(tier, seed):
             vs.append(v)
         A(vs)
     return out
+
+
+# ---------------------------------------------------------------------------------------
+# C08: COUNT / VariantNames / VariantArray / iter describe the same list
+
+def corpus_agree(tier, seed):
+    nm = Namer()
+    out = []
+    ALL = ('EnumCount', 'EnumIter', 'VariantNames', 'VariantArray')
+    def A(vs, derives=ALL, **kw):
+        p = parse_prog(nm, vs, stem='Ag', derives=derives, **kw)
+        p.std_derives = ['Debug', 'PartialEq', 'Clone', 'Copy'] if 'VariantArray' in derives else ['Debug', 'PartialEq']
+        out.append(p)
+        return p
+    A([V('Red')])
+    A([V('Red'), V('GreenLeaf', ts='leaf'), V('Blue2', ser=['b', 'blue'])], serialize_all='snake_case')
+    p = A([V('A'), V('B'), V('C'), V('D')], repr='u8')
+    p.variants[0].disc, p.variants[2].disc = '10', '3'
+    A([V('Red'), V('Gone', disabled=True), V('Blue'), V('GoneB', disabled=True, ts='bye')], prefix='c.')
+    A([V('Unit'), V('Tup', 'tuple', ['u8', 'T']), V('Named', 'named', ['i32']), V('Gone', 'tuple', ['u8'], disabled=True)], derives=('EnumCount', 'EnumIter', 'VariantNames'))
+    A([V('X%d' % i) for i in range(8)], serialize_all='SCREAMING_SNAKE_CASE')
+    if tier == 'quick':
+        return out
+    styles = [None, 'kebab-case', 'camelCase', 'UPPERCASE', 'Train-Case']
+    for k in range(30):
+        n = 1 + k % 7
+        fieldless = (k % 3 != 2)
+        vs = []
+        for i in range(n):
+            kind = 'unit' if fieldless else ['unit', 'tuple', 'named'][(k + i) % 3]
+            tys = {'unit': [], 'tuple': [TYPES[(k + i) % 5]], 'named': [TYPES[(k + i + 1) % 5]]}[kind]
+            stem = STEMS[(i + k) % len(STEMS)]
+            vs.append(V(IS_IDENTS[(i + k) % len(IS_IDENTS)], kind, tys, disabled=((k % 2 == 1) and (k + i) % 4 == 1),
+                        ser=[[], [stem], [stem, stem + stem]][(k + i) % 3], ts=[None, None, None, stem + '!'][(k + i) % 4]))
+        p = A(vs, derives=ALL if fieldless else ('EnumCount', 'EnumIter', 'VariantNames'), serialize_all=styles[k % len(styles)])
+        if fieldless and k % 4 == 0:
+            for i, v in enumerate(p.variants):
+                v.disc = str(5 * i + 1) if i % 2 == 0 else None
+    return out
+
+
+# ---------------------------------------------------------------------------------------
+# C07 serialize_all
+
+ALL_STYLES = ['camelCase', 'PascalCase', 'kebab-case', 'snake_case', 'SCREAMING_SNAKE_CASE', 'SCREAMING-KEBAB-CASE', 'lowercase', 'UPPERCASE',
+              'title_case', 'mixed_case', 'Train-Case', 'camel_case', 'kebab_case', 'snek_case', 'shouty_snake_case', 'shouty_snek_case']
+
+DICTIONARY = [
+    'Red', 'DarkBlue', 'HTTPServer', 'XMLHttpRequest', 'Utf8String', 'IPv6Address', 'MyStruct2', 'A', 'AB', 'ABc', 'aB', 'snake_case_name',
+    'SCREAMING_NAME', 'Mixed_Snake', 'Trailing_', 'Double__Underscore', 'X1', 'X1Y2', 'Http2', 'HTTP2Server', 'V8Engine', 'Base64Encoded',
+    'SHA256Hash', 'lowercase', 'UPPER', 'camelCase', 'PascalCase', 'ID', 'Id', 'UserID', 'UserId', 'parseURL', 'URLParser', 'Foo123Bar', 'Foo123bar',
+    'foo123', 'F', 'Ff', 'FF', 'FFf', 'FfF', 'a1b2', 'A1B2', 'A1b2C3', 'Ab1', 'aBC', 'ABCDef', 'AbCdEf', 'Z9', 'Z_9', 'Z9_', 'x_y_z', 'X_Y_Z', 'Xy_Zw',
+    'OneTwoThree', 'oneTwoThree', 'ONE_TWO_THREE', 'One2Three', 'One22Three', 'I', 'IOError', 'IoError', 'EOF', 'Eof', 'NaN', 'NAN', 'PdfFile', 'PDFFile',
+    'JSONParser', 'JsonParser', 'Html5', 'HTML5', 'Html5Doc', 'HTML5Doc', 'Point3D', 'Point3d', 'Vec2', 'Vec2f', 'U8', 'U16', 'I32Max', 'F64x2', 'Rgb', 'RGB', 'RGBA8',
+    'Rgba8', 'DarkGray', 'Dark_Gray', 'dark_gray', 'DARK_GRAY', 'LightSkyBlue', 'MediumVioletRed', 'GreenYellow', 'KeyUp', 'KeyDown', 'F1', 'F12', 'Numpad0', 'NumLock',
+    'PrintScreen', 'BrowserBack', 'OSLeft', 'OsRight', 'MacOS', 'IOS', 'IOs', 'WinRT', 'X86_64', 'Aarch64', 'ArmV7', 'Riscv32imc', 'Wasm32', 'TcpIp', 'TCPIP', 'UdpV4',
+    'Ok200', 'NotFound404', 'E2BIG', 'ENoEnt', 'Q', 'Qq1', 'QQ1q',
+]
+
+def all_identifiers(maxlen):
+    first = 'abAB'
+    rest = 'abAB1_'
+    out = []
+    for n in range(1, maxlen + 1):
+        for f in first:
+            for tail in itertools.product(rest, repeat=n - 1):
+                out.append(f + ''.join(tail))
+    return out
+
+def corpus_case(tier, seed):
+    from . import oracle
+    nm = Namer()
+    out = []
+    ids = all_identifiers(3 if tier == 'quick' else 4)
+    chunk = 64
+    for style in ALL_STYLES:
+        for c in range(0, len(ids), chunk):
+            part = ids[c:c + chunk]
+            p = parse_prog(nm, [V(i) for i in part], stem='Id', derives=('VariantNames',), serialize_all=style)
+            p.std_derives = []
+            p.tags = ['style=' + style, 'identifiers %d..%d of %d (exhaustive up to length %d over {a,b,A,B,1,_})' % (c, c + len(part), len(ids), 3 if tier == 'quick' else 4)]
+            out.append(p)
+    # dictionary: every derive that prints or parses names, with explicit spellings that must not be re-cased
+    words = list(DICTIONARY)
+    per = 8
+    k = 0
+    for style in ALL_STYLES:
+        pool = words[(7 * k) % len(words):] + words[:(7 * k) % len(words)]
+        n_enums = 2 if tier == 'quick' else 15
+        idx = 0
+        for e in range(n_enums):
+            vs, seen = [], set()
+            while len(vs) < per and idx < len(pool):
+                w = pool[idx]
+                idx += 1
+                key = oracle.convert_case(style, w)
+                if key in seen or key == '' or key in ('explicit-Stays', 'Keep_Me', 'to_String_Kept'):
+                    continue
+                seen.add(key)
+                vs.append(V(w))
+            if not vs:
+                break
+            vs.append(V('ExplicitSer', ser=['explicit-Stays']))
+            vs.append(V('ExplicitTs', ts='to_String_Kept', ser=['Keep_Me']))
+            p = parse_prog(nm, vs, stem='Dw', derives=('VariantNames', 'Display', 'AsRefStr', 'IntoStaticStr', 'EnumString', 'EnumMessage'), serialize_all=style)
+            p.std_derives = ['Debug', 'PartialEq']
+            p.tags = ['style=' + style, 'dictionary']
+            out.append(p)
+        k += 1
+    return out
+
+
+# ---------------------------------------------------------------------------------------
+# C16 use_phf: each program twice (plain twin = prog, phf twin = prog.inner)
+
+def corpus_phf(tier, seed):
+    import copy
+    nm = Namer()
+    out = []
+    def A(vs, **kw):
+        p = parse_prog(nm, vs, stem='Ph', derives=('EnumString',), **kw)
+        p.std_derives = ['Debug', 'PartialEq', 'Clone']
+        q = copy.deepcopy(p)
+        q.name = p.name + 'F'
+        q.use_phf = True
+        p.inner = q
+        out.append(p)
+        return p
+    # mixed-case spellings, case-sensitive
+    A([V('Red'), V('Green', ser=['g', 'Grn']), V('Blue', ts='BLEU')])
+    # case-insensitive at enum level, mixed-case spellings, one variant opting out, a disabled variant, serialize_all
+    A([V('RedFox'), V('Gone', disabled=True, ser=['gone']), V('BlueSky', aci=False), V('Green', ser=['Grn', 'vErT'])], aci=True, serialize_all='snake_case')
+    # case-insensitive spellings that are already all-lowercase / all-uppercase / caseless / empty / non-ASCII
+    A([V('Lower', ser=['lower'], aci=True), V('Plain')])
+    A([V('Upper', ser=['UPPER'], aci=True), V('Plain')])
+    A([V('Num', ser=['4711'], aci=True), V('Dash', ser=['-'], aci=True), V('Plain')])
+    A([V('Empty', ser=[''], aci=True), V('Plain')])
+    A([V('Uml', ser=['gr\u00fcn'], aci=True), V('Mixed', ser=['MiXed'], aci=True)])
+    A([V('Two', ser=['ab', 'AB'], aci=True), V('Plain')])
+    # default variant and custom error
+    A([V('Red', aci=True, bare=True), V('Other', 'tuple', ['Cap'], default=True), V('Blue')])
+    A([V('Red', ts='RED'), V('Blue', aci=True)], parse_err_ty='PErr', parse_err_fn='perr')
+    A([V('GoneA', disabled=True), V('GoneB', disabled=True)])
+    if tier == 'quick':
+        return out
+    styles = [None, 'snake_case', 'SCREAMING_SNAKE_CASE', 'kebab-case', 'lowercase', 'UPPERCASE', 'camelCase']
+    idents = ['RedFox', 'BlueSky', 'Green', 'DarkGray2', 'HTTPPort', 'Yellow', 'X']
+    rnd = random.Random(seed * 13 + 1)
+    for k in range(40):
+        nv = 1 + k % 5
+        vs = []
+        for i in range(nv):
+            stem = STEMS[(i + k) % len(STEMS)]
+            forms = [stem, stem.upper(), stem.title(), stem + '-x', '\u00e9' + stem, stem[:3] + '7', '%d%d' % (k, i)]
+            rnd.shuffle(forms)
+            mode = (k // 2 + i) % 5
+            ser, ts = [], None
+            if mode == 1: ser = forms[:1]
+            elif mode == 2: ser = forms[:2]
+            elif mode == 3: ts = forms[0]
+            elif mode == 4: ser, ts = forms[:1], forms[1]
+            aci = [None, True, False, True, None][(k + 2 * i) % 5]
+            vs.append(V(idents[(i + k) % len(idents)], ser=ser, ts=ts, aci=aci, disabled=((k + i) % 7 == 3)))
+        seen = set()
+        vs = [v for v in vs if not (v.ident in seen or seen.add(v.ident))]
+        kw = dict(serialize_all=styles[k % len(styles)], aci=(k % 3 == 0))
+        if k % 5 == 1:
+            vs.append(V('Fallback', 'tuple', ['Cap'], default=True))
+        elif k % 4 == 2:
+            kw.update(parse_err_ty='PErr', parse_err_fn='perr')
+        try:
+            A(vs, **kw)
+        except Exception:
+            pass
+    return out
